@@ -896,7 +896,9 @@ fn build_trun(samples: &[FragmentSample], data_offset: u32) -> Vec<u8> {
         payload.extend_from_slice(&flags.to_be_bytes());
 
         // Composition time offset (signed, pts - dts)
-        let cts = (sample.pts as i64 - sample.dts as i64) as i32;
+        // Two's-complement difference: equal to pts - dts whenever that fits in 32 bits and
+        // never an arithmetic overflow for timestamps above i64::MAX.
+        let cts = sample.pts.wrapping_sub(sample.dts) as i32;
         payload.extend_from_slice(&cts.to_be_bytes());
     }
 
